@@ -9,7 +9,8 @@ from ._contract import Category, Contract, NoValidatorError
 from ._error import Error
 from ._extractors import (
     TOKENS, UNKNOWN, get_asserts, get_example, get_exceptions, get_imports,
-    get_markers, get_pre, get_returns, get_value, has_returns, uses_result,
+    get_markers, get_pre, get_returns, get_value, has_returns, is_generator,
+    uses_result,
 )
 from ._func import Func
 from ._stub import StubsManager
@@ -139,7 +140,7 @@ class CheckReturns(FuncRule):
             yield from self._check(func=func, contract=contract)
 
     def _check(self, func: Func, contract: Contract) -> Iterator[Error]:
-        for token in get_returns(body=func.body):
+        for token in get_returns(body=func.body, generator=is_generator(func.body)):
             error = self._validate(
                 contract=contract,
                 args=(token.value,),
